@@ -293,6 +293,27 @@ def check_layout(out, A, view=False):
                 if Rm is not None:
                     out.equal_bits("Realp(matrices, mixed dtypes):same embedding as with float planes", Rm, wantb)
                     out.label("mixed_dtype_planes")
+        # planes that SHARE memory: the same array passed for two or all imaginary planes, overlapping windows of one
+        # buffer (quaternion matrices with equal / shifted components arise from real data lifted to H); the embedding
+        # depends on the values only and the caller's arrays stay untouched
+        base = [np.array(A[..., p], dtype=float) for p in range(4)]
+        buf = np.concatenate([base[1], base[2]], axis=0)
+        sh = max(1, m // 2)
+        combos = {"same array twice (x, y)": [base[0], base[1], base[1], base[3]],
+                  "same array twice (y, z)": [base[0], base[3], base[1], base[1]],
+                  "same array twice (x, z)": [base[0], base[1], base[3], base[1]],
+                  "one array for all planes": [base[2], base[2], base[2], base[2]],
+                  "overlapping windows of one buffer": [base[0], buf[0:m], buf[sh:sh + m], base[3]]}
+        for nm, pl in combos.items():
+            wantp = ref.chi_r_copy(np.stack([np.array(x) for x in pl], axis=-1), blocked=True)
+            before = [np.array(x) for x in pl]
+            oks, Rs = out.call(f"Realp(matrices, {nm})", L.utils.Realp, *pl)
+            if oks:
+                Rs = as_real(out, f"Realp(matrices, {nm})", Rs, (4 * m, 4 * n))
+                if Rs is not None:
+                    out.equal_bits(f"Realp(matrices, {nm}):same embedding as for independent planes", Rs, wantp)
+                out.true(f"Realp(matrices, {nm}):planes unchanged",
+                         all(np.array_equal(a, b, equal_nan=True) for a, b in zip(before, pl)), "a plane was modified")
     return E, Rb
 
 
